@@ -359,8 +359,19 @@ class IntroVisitor(ast.NodeVisitor):
                 self._store_names.add(LocalVar(node.args[1].id))  # type: ignore
         # str is the underlying type of a DDSPath
         if fi_or_p is not None and isinstance(fi_or_p, str):
-            self.load_paths.append(fi_or_p)
+            self._add_load_path(fi_or_p)
         self.generic_visit(node)
+
+    def _add_load_path(self, p: DDSPath) -> None:
+        # The calls are visited in program order: a path produced by this evaluation is
+        # registered when its producer is visited. If it is not known yet, it is read too early.
+        if self._gctx.resolved_references.get(p) is None:
+            raise DDSException(
+                f"The path {p} is loaded before it is produced: the path is kept later in the "
+                f"same evaluation. Suggestion: call the function that produces {p} before loading it. "
+                f"Call stack: {self._call_stack}"
+            )
+        self.load_paths.append(p)
 
     def visit_Assign(self, node: ast.Assign) -> Any:
         targets = get_assign_targets(node)
@@ -418,7 +429,7 @@ class IntroVisitor(ast.NodeVisitor):
                     self.inters.append(fi_or_p)
                 # str is the underlying type of a DDSPath
                 if fi_or_p is not None and isinstance(fi_or_p, str):
-                    self.load_paths.append(fi_or_p)
+                    self._add_load_path(fi_or_p)
 
         self.generic_visit(node)
 
